@@ -108,14 +108,14 @@ PROPS = {
         "rule": SESS_RULE + "; after every create/delete/mkdir/rmdir the set of paths below the root is walked and compared with the set before the "
                 "request: exactly the named entry appears or disappears on success, nothing on failure (oracle C05-exact; incl. mkdir of an existing "
                 "directory and below a missing parent)", "assumptions": SESS_ASSUME,
-        "partial": ["which entry a successful delete/mkdir/rmdir adds or removes is Model/Fs.fs_remove / fs_mkdir, compared with the real tree after every session "
-                    "(full snapshot); the theorems give the frame (no content changes, failure = nothing changed)",
-                    "that generated images and decrypted views cannot be written through is decided by the hostile/sess jobs (create below a virtual prefix is "
+        "partial": ["that generated images and decrypted views cannot be written through is decided by the hostile/sess jobs (create below a virtual prefix is "
                     "refused in the model: EPERM) and by C20's targets"],
         "level_text": "Theorems C05_readonly (for every byte stream the world after a connection equals the world before when writing is disabled), "
                       "C05_refused, C05_reads_pure, C05_create (create leaves an empty upload open or changes nothing), C05_upload_exact (any number of writes "
-                      "of any sizes store exactly the concatenation, acknowledge every length, touch no other file and not the tree), C05_structure_ops over "
-                      "the session model.",
+                      "of any sizes store exactly the concatenation, acknowledge every length, touch no other file and not the tree), C05_structure_ops (failure code = nothing changed, no content changes), C05_mkdir_truthful / "
+                      "C05_remove_truthful (success code exactly when the filesystem operation succeeded) and C05_mkdir_effect / C05_remove_effect (the named "
+                      "entry appears as an empty directory / disappears, the parent gets the new time and the one name more / less, every lookup that "
+                      "leaves the path at any element finds the same node, ancestors keep time and names, no inode changes), over the session model.",
     },
     "C06": {
         "jobs": [sess_job(120, 2500, keep_ops=["open_dir", "dir_entry", "dir_entry_v2", "read_dir", "stat", "dir_size"]),
@@ -234,9 +234,11 @@ PROPS = {
         "jobs": [sess_job(60, 1500, keep_ops=["open_file", "read_cd"]),
                  {"cmd": "cdsess", "quick": 8, "thorough": 400, "timeout": 6000, "project": sess_project(keep_ops=["open_file", "read_cd"])}],
         "rule": SESS_RULE + "; job cdsess: one connection over several CD images - every sector size x both signatures, an image without a "
-                "signature, one of exactly 2 MiB (lower edge of the window, inclusive) and one a byte below it - with opens, CLOSEFILE and sector reads "
+                "signature, one of exactly 2 MiB (lower edge of the window, inclusive) and one a byte below it, sparse images of 848 MiB and 848 MiB + 1 (upper "
+                "edge) - with opens, CLOSEFILE and sector reads "
                 "(start != count, count 0, ranges crossing the end)", "assumptions": SESS_ASSUME,
-        "partial": ["the upper edge of the window (848 MiB) is covered by the theorem and the regenerated constants only: no image of that size is built"],
+        "partial": ["images at the upper edge of the window (848 MiB and one byte more; sparse files) are out of the executable model's reach: that edge is "
+                    "decided by the theorem over the regenerated constants and by the oracle C17-window on the real code"],
         "level_text": "Theorems C17_args, C17_read (exact user-data slices for every sector size, image, start and count in range), C17_short, C17_detect "
                       "(the detected size is the first candidate whose 16*S+24 position carries either signature; candidates/magics regenerated from the source).",
     },
@@ -293,7 +295,7 @@ SFO_JOB = {"cmd": "sfo", "quick": 600, "thorough": 30000, "timeout": 3000}
 PROPS["C08"] = {
     "jobs": [iso_job(120, 3000), TOOLS_SMALL, SFO_JOB],
     "rule": ISO_RULE, "assumptions": ISO_ASSUME,
-    "partial": ["child-record links (a parent's record for a sub-directory pointing at that sub-directory), path-table parent numbering, non-overlap of "
+    "partial": ["child-record links are the theorem C07_every_directory_reachable; path-table parent numbering, non-overlap of "
                 "directory extents and the supplementary descriptor's fields are checked by the strict validator (anchored on internal/testutil/testdata/testimg.iso) and by the byte-exact differential, not by theorems",
                 "job sfo: sfoField against Model/Sfo on 26 crafted files, generated well-formed files and mutations of them (bit flips, truncations, extreme header words)"],
     "level_text": "Theorems C08_sizes, C08_volume_space, C08_record_length, C08_records (no record straddles a sector, every record fits its length "
